@@ -25,6 +25,7 @@ EXPLANATION = (
     "generically or is stored and reloaded explicitly by name, and all arrays and the threshold are stored and reloaded. "
     "Not decided: which channels the statistics flag (numeric). "
     "Since F43-F45: clean_rfi runs its statistics pass on every call over the range it cleans (R3); every component mask is OR-ed into, like chan_mask (R1); the strided lag window of iqrm_mask uses the strides of the array it views (R1)."
+    " Since F59 / wave 6: to_file's type filter accepts the numpy scalar form of every generically stored header field (R4); the lags compared by iqrm_mask are exactly -radius..-1 and 1..radius as a set of integer intervals affine in radius (R1); no optional numeric parameter (mask_value, start) is used for its truth value (R3)."
 )
 RFI = "sigpyproc.core.rfi"
 BASE = "sigpyproc.base"
@@ -215,18 +216,28 @@ def run(prog: Program, res: Result, tier: str) -> None:
                                  "gives a wrong mask and out-of-bounds reads)", construct="as_strided", key="iqrm_mask:strides")
     # the lags compared are every offset -radius..-1 and 1..radius, once: as a set of integer intervals with bounds affine in
     # `radius` (np.arange / concatenate / r_ / a `!= 0` filter), whatever the spelling
-    lag_uses = [n_ for n_ in ast.walk(f.node) if isinstance(n_, ast.Subscript) and isinstance(n_.slice, ast.Tuple) and len(n_.slice.elts) == 2
-                and "radius" in norm(n_.slice.elts[1]) and isinstance(n_.ctx, ast.Load)]
+    def _stmt_of(n_):
+        while n_ is not None and not isinstance(n_, ast.stmt):
+            n_ = parent(n_)
+        return n_
+    lag_uses = []
+    for n_ in ast.walk(f.node):
+        if isinstance(n_, ast.Subscript) and isinstance(n_.slice, ast.Tuple) and len(n_.slice.elts) == 2 and isinstance(n_.ctx, ast.Load) \
+                and isinstance(n_.slice.elts[0], ast.Slice) and not isinstance(n_.slice.elts[1], ast.Slice):
+            col_ = flq.expand(n_.slice.elts[1], flq.cfg.node_for(_stmt_of(n_)))
+            if "radius" in norm(col_):
+                lag_uses.append((n_, col_))
     okl, whyl = False, "the window of neighbours is no longer selected as `view[:, lags + radius]`"
     if len(lag_uses) == 1:
-        col = flq.expand(lag_uses[0].slice.elts[1], flq.cfg.node_for(lag_uses[0]))
+        col = lag_uses[0][1]
+        lag_uses = [lag_uses[0][0]]
         ivs = _lag_intervals(col)
         want_iv = sorted([((0, 0), (0, 1)), ((1, 1), (1, 2))])     # columns [0, radius) and [radius + 1, 2 radius + 1)
         okl = ivs is not None and sorted(ivs) == want_iv
         whyl = (f"the lags selected are columns {_show_intervals(ivs)} of the padded window, not [0, radius) and [radius+1, 2*radius+1): "
                 "a neighbour at distance radius (or the channel itself) is compared wrongly" if ivs is not None else
                 f"the set of lags `{norm(col)[:100]}` is not an arange / concatenate / filter expression in radius")
-    (res.ok if okl else res.bad)("R1", f, lag_uses[0] if lag_uses else f.node, "every lag -radius..-1 and 1..radius is compared, once" if okl else f"iqrm_mask: {whyl}",
+    (res.ok if okl else res.bad)("R1", f, (lag_uses[0] if not isinstance(lag_uses[0], tuple) else lag_uses[0][0]) if lag_uses else f.node, "every lag -radius..-1 and 1..radius is compared, once" if okl else f"iqrm_mask: {whyl}",
                                  construct="lags", key="iqrm_mask:lags")
     # the custom component is monotone too
     cf = cls.methods["apply_funcn"]
